@@ -159,11 +159,71 @@ fn walk(plan: &LogicalPlan, joins: &mut Vec<Value>, filters: &mut Vec<Value>) {
     }
 }
 
+/// qualified column references of an expression, read off its Debug form
+/// (`Column { relation: Some("x1"), name: "id" }`); None when the expression embeds a sub-query plan
+fn qualified_cols(e: &Expr) -> Option<Vec<(String, String)>> {
+    let s = format!("{:?}", e);
+    if s.contains("Subquery") || s.contains("Exists") {
+        return None;
+    }
+    let mut out = Vec::new();
+    let pat = "relation: Some(\"";
+    let mut rest = s.as_str();
+    while let Some(i) = rest.find(pat) {
+        rest = &rest[i + pat.len()..];
+        let Some(j) = rest.find('"') else { break };
+        let q = rest[..j].to_string();
+        rest = &rest[j..];
+        let npat = "name: \"";
+        let Some(k) = rest.find(npat) else { break };
+        // the name must belong to this Column (directly after the relation)
+        if k > 6 {
+            continue;
+        }
+        rest = &rest[k + npat.len()..];
+        let Some(m) = rest.find('"') else { break };
+        out.push((q, rest[..m].to_string()));
+        rest = &rest[m..];
+    }
+    Some(out)
+}
+
+fn resolves_in(plan: &LogicalPlan, q: &str, n: &str) -> bool {
+    plan.schema().fields().iter().any(|f| f.relation.as_deref() == Some(q) && f.name.eq_ignore_ascii_case(n))
+}
+
+/// C31: every QUALIFIED column of a join key must be a column of the join input it is evaluated on
+/// (left key on the left input, right key on the right input; a swapped pair is accepted too)
+fn join_refs_unresolved(plan: &LogicalPlan, out: &mut Vec<String>, seen: &mut usize) {
+    if let LogicalPlan::Join(j) = plan {
+        for (a, b) in &j.on {
+            let (Some(ca), Some(cb)) = (qualified_cols(a), qualified_cols(b)) else { continue };
+            *seen += ca.len() + cb.len();
+            let side = |cols: &Vec<(String, String)>, p: &LogicalPlan| cols.iter().all(|(q, n)| resolves_in(p, q, n));
+            let straight = side(&ca, &j.left) && side(&cb, &j.right);
+            let swapped = side(&ca, &j.right) && side(&cb, &j.left);
+            if !(straight || swapped) {
+                let mut l = Vec::new();
+                let mut r = Vec::new();
+                rels_under(&j.left, &mut l);
+                rels_under(&j.right, &mut r);
+                out.push(format!("{:?} join key {} = {} does not resolve on its inputs (left {:?}, right {:?})", j.join_type, a, b, l, r));
+            }
+        }
+    }
+    for c in plan.children() {
+        join_refs_unresolved(c, out, seen);
+    }
+}
+
 pub fn plan_info(plan: &LogicalPlan) -> Value {
     let mut joins = Vec::new();
     let mut filters = Vec::new();
     walk(plan, &mut joins, &mut filters);
     let mut rels = Vec::new();
     rels_under(plan, &mut rels);
-    json!({"joins": joins, "filters": filters, "rels": rels, "schema": schema_json(plan)})
+    let mut unres = Vec::new();
+    let mut seen = 0usize;
+    join_refs_unresolved(plan, &mut unres, &mut seen);
+    json!({"joins": joins, "filters": filters, "rels": rels, "schema": schema_json(plan), "join_refs_unresolved": unres, "join_key_cols_seen": seen})
 }
